@@ -187,6 +187,34 @@ theorem divmod_python {a b : Int} (hb : 0 < b) :
   SecInt.divmod_python hb
 example : (-7 : Int) / 2 = -4 ∧ (-7 : Int) % 2 = 1 := by decide
 
+/-- **mod_negative_divisor** (repo fix 6154ebc: `Runtime.mod` took the unsigned representative of a negative public
+modulus): for `b < 0` the code now computes `-((-a) % (-b))`; this is Python's `a % b`: it lies in `(b, 0]`, is congruent to
+`a` modulo `b`, and with `q = (a - r) / b` (exact) one has `a = b*q + r` and `q = ⌊a / b⌋` -/
+theorem mod_negative_divisor {a b : Int} (hb : b < 0) :
+    pyMod a b = -((-a) % (-b)) ∧ b < pyMod a b ∧ pyMod a b ≤ 0 ∧ (pyMod a b - a) % b = 0 ∧
+    a = b * pyDiv a b + pyMod a b := by
+  have hb' : 0 < -b := by omega
+  have h1 := Int.emod_nonneg (-a) (by omega : -b ≠ 0)
+  have h2 := Int.emod_lt_of_pos (-a) hb'
+  have h3 := Int.emod_add_mul_ediv (-a) (-b)
+  have hpm : pyMod a b = -((-a) % (-b)) := by
+    unfold pyMod
+    have : ¬ b > 0 := by omega
+    simp [this, hb]
+  have hpd : pyDiv a b = (-a) / (-b) := by
+    unfold pyDiv
+    have : ¬ b > 0 := by omega
+    simp [this, hb]
+  refine ⟨hpm, by rw [hpm]; omega, by rw [hpm]; omega, ?_, ?_⟩
+  · rw [hpm]
+    have : -((-a) % (-b)) - a = b * (-((-a) / (-b))) := by nlinarith [h3]
+    rw [this]
+    exact Int.mul_emod_right b _
+  · rw [hpm, hpd]
+    nlinarith [h3]
+
+example : pyMod 7 (-2) = -1 ∧ pyDiv 7 (-2) = -4 ∧ pyMod (-7) (-3) = -1 ∧ pyMod 0 (-4) = 0 ∧ pyDiv (-128) (-1) = 128 := by decide
+
 /-- `__divmod__`/`__floordiv__`: `q = (a - r) * reciprocal(b)` is the floor quotient -/
 theorem divmod_correct {p : Nat} (hp : p.Prime) {a b : Int} (hb0 : 0 < b) (hbp : b < (p : Int))
     (hq : Fits p (a / b)) : divmodModel p a b (a % b) = (a / b, a % b) :=
